@@ -1546,6 +1546,7 @@ impl Zeroconf {
                 // A removed instance may be found again later: let it have its
                 // resolve queries again then.
                 for instance in expired_services.values().flatten() {
+                    self.resolved.remove(instance);
                     self.pending_resolves.remove(instance);
                     self.retransmissions.retain(
                         |rerun| !matches!(&rerun.command, Command::Resolve(i, _) if i == instance),
